@@ -1178,9 +1178,9 @@ class Ser:
             for name, items in consolidated.items():
                 block = [":%s:" % name]
                 for arg, body, w in items:
-                    if self.consolidated == "deflist" and name not in ("Exceptions",):
+                    if self.consolidated == "deflist" and name not in ("Exceptions",) and all(b for _, b, _ in items):
                         block.append("    `%s`" % arg)
-                        block.extend(self.wrap(body, "        ", "        ", w) if body else ["        \\"])
+                        block.extend(self.wrap(body, "        ", "        ", w))
                     else:
                         sep = ": " if self.consolidated != "bullet-" else " - "
                         if body:
@@ -1411,6 +1411,12 @@ def render_doc(src: str, fmt: str, full: str) -> Dict[str, Any]:
             t0 = epydoc2stan.type2stan(obj)          # attributechild.html renders the type, then the docstring
             res["own_type"] = flatten(t0) if t0 is not None else None
         res["html"] = flatten(epydoc2stan.format_docstring(obj))
+        res["to_stan_error"] = None
+        if obj.parsed_docstring is not None:
+            try:        # why a fallback happened, asked from the code itself (reportErrors prints only the first problem of an object)
+                flatten(obj.parsed_docstring.to_stan(obj.docstring_linker))
+            except Exception as e:
+                res["to_stan_error"] = "%s: %s" % (type(e).__name__, e)
         for name, sub in getattr(obj, "contents", {}).items():
             if isinstance(sub, model.Attribute) and name in ("zz", "yy", "ww", "a", "b"):
                 t = epydoc2stan.type2stan(sub)
@@ -1461,13 +1467,9 @@ def oracle_document(ctx: Ctx, fmt: str, doc, ser, full: str, src: str, r) -> Non
     fallback = find_all(root, lambda n: n.tag == "p" and n.cls() == "pre")
     bad = [l for l in r["reports"] if "bad docstring" in l]
     if fallback:      # (a non-fatal "bad docstring" warning alone, e.g. docutils' INFO about two equal section titles, loses nothing)
-        # several reports may say "bad docstring"; non-fatal ones (docutils' INFO about equal section titles) are not the cause
-        fatal = [l for l in bad if "undefined entity" in l] or [l for l in bad if "Duplicate implicit target name" not in l] or bad
-        why = (fatal[0].split("bad docstring:")[-1].strip()[:60] if fatal else "?")
+        why = (r.get("to_stan_error") or (bad[0].split("bad docstring:")[-1].strip() if bad else "?"))[:80]
         code_spaces = re.search(r"C\{[^{}]*  [^{}]*\}|``[^`]*  [^`]*``|\u00a0", ser["docstring"])
-        # (reportErrors reports an object once: after a non-fatal parse warning the to_stan failure itself is not printed)
-        only_info = all("Duplicate implicit target name" in l for l in bad)
-        if code_spaces and ("undefined entity" in why or only_info):
+        if code_spaces and "undefined entity" in why:
             sig = "html2stan:nbsp-entity:docstring-falls-back-to-plaintext"
         else:
             sig = "wellformed-docstring-rejected:" + fmt + ":" + re.sub(r"[^A-Za-z ]", "", why.split("\n")[0])[:40].strip().replace(" ", "-")
